@@ -31,7 +31,7 @@ ASSUMPTIONS = [
     "combined return: must contain the union of returned flags and may additionally contain SUCCESS when some handler returned non-zero",
     "in population 'prod' event kinds whose DEFAULT handlers are registered for every language are not notified with probe data (they would run lian code on it); they are covered by population 'bare' and by the in-vivo monitor of C15",
 ]
-PROBES = ["invivo_notifications", "invivo_handlers_invoked", "invivo_multi_handler_notifications", "unprocessed_set_out", "lang_filtered", "any_lang_match", "blocked", "data_chained", "unprocessed_kept_data", "unknown_event",
+PROBES = ["invivo_notifications", "invivo_handlers_invoked", "invivo_multi_handler_notifications", "unprocessed_set_out", "lang_filtered", "any_lang_match", "blocked", "data_chained", "unprocessed_kept_data", "unknown_event", "registered_by_declared_name", "registered_for_unsupported_declared_kind", "raised_by_declared_name",
           "flags_multi", "str_lang", "set_lang", "substring_lang", "register_list", "plugin_loaded", "prod_default_table",
           "no_handler_matched", "listed_handlers", "debug_mode", "reentrant_notify", "registered_during_dispatch", "eventdata_reused", "same_handler_twice", "shared_lang_list"]
 # the same check again, smaller, in interpreters started with assertions stripped (python -O / PYTHONOPTIMIZE=1)
@@ -49,6 +49,8 @@ _em_mod = None
 _EventData = None
 _EventHandler = None
 _EVENT_KINDS = None
+_DECLARED = {}
+_DECLARED_NAMES = []
 _plugin_path = None
 _PLUGIN_SPEC = None   # set right before constructing a 'plugin' manager
 
@@ -63,6 +65,10 @@ def setup_worker():
     with contextlib.redirect_stdout(io.StringIO()):
         probe = em.EventManager(SimpleNamespace(event_handlers=[], debug=False))
     _EVENT_KINDS = sorted(probe.event_handlers.keys())
+    from lian.config.constants import EVENT_KIND as _EK
+    global _DECLARED, _DECLARED_NAMES
+    _DECLARED = {str(n_): v_ for n_, v_ in getattr(_EK, "_members", {}).items() if isinstance(v_, int)}
+    _DECLARED_NAMES = sorted(_DECLARED)
     d = os.path.join(scratch_root(), f"c17-plugin-{os.getpid()}")
     os.makedirs(d, exist_ok=True)
     _plugin_path = os.path.join(d, "sim_plugin.py")
@@ -107,6 +113,9 @@ def gen_knobs(rng, tier):
         "p_reentrant": rng.choice([0.0, 0.0, 0.3]),
         "debug": rng.random() < 0.2,          # production --debug: the manager prints what it dispatches
         "p_list": rng.choice([0.0, 0.0, 0.2]),
+        # events addressed by their DECLARED NAME (EVENT_KIND.<name>), supported by the manager or not; and a scripted sweep
+        "named_events": rng.random() < 0.12,
+        "name_sweep": rng.random() < 0.012,
     }
 
 
@@ -142,7 +151,17 @@ def generate(rng, k):
     if k["population"] == "invivo":
         return invivo.gen_invivo_ops(rng, p_history=0.0)
     ops = []
+    if k.get("name_sweep"):
+        # one handler registered for one declared kind (any language), then EVERY declared kind is raised once: the handler
+        # runs for its own kind only (and not at all when the manager does not support that kind)
+        i = rng.randrange(256)
+        ops.append({"op": "register", "event": f"N{i}", "h": 0, "langs": {"kind": "list", "v": [ANY]}})
+        for j in range(72):
+            ops.append({"op": "notify", "event": f"N{j}", "lang": "sim", "returns": {"0": 1}, "sets_out": {"0": False}})
+        return ops
     events = [f"E{p}" for p in k["event_picks"][:k["n_events"]]]   # resolved to real kinds by the executor
+    if k.get("named_events"):
+        events = [f"N{rng.randrange(256)}" for _ in events]
     hid = 0
     regs = {e: [] for e in events}
     for e in events:
@@ -331,9 +350,19 @@ def execute(trace):
     # ---- resolve symbolic events to real kinds
     kinds = _EVENT_KINDS
 
+    name_of = {}           # symbolic event -> declared name (events addressed by name)
+
     def resolve(ev, usable):
         if ev.startswith("U"):
             return UNKNOWN_EVENTS[int(ev[1:]) % len(UNKNOWN_EVENTS)]
+        if ev.startswith("N"):
+            # a declared kind, by name: supported ones only if probe data may be sent to them in this population
+            names = [n_ for n_ in _DECLARED_NAMES if _DECLARED[n_] in usable or _DECLARED[n_] not in kinds]
+            if not names:
+                return None
+            nm = names[int(ev[1:]) % len(names)]
+            name_of[ev] = nm
+            return _DECLARED[nm]
         if not usable:
             return None
         return usable[int(ev[1:]) % len(usable)]
@@ -390,6 +419,7 @@ def execute(trace):
         usable = list(kinds)
 
     model = {}     # real event kind -> list of (hid, langs)
+    name_model = {}     # declared name -> handler ids registered under that name
     n_notify = 0
     last_data = [None]
     if k.get("debug"):
@@ -415,6 +445,11 @@ def execute(trace):
                             continue
                         real_items.append(dict(it, _event=ev))
                         model.setdefault(ev, []).append((it["h"], _model_langs(it["langs"])))
+                        if it["event"] in name_of:
+                            name_model.setdefault(name_of[it["event"]], []).append(it["h"])
+                            hit("registered_by_declared_name")
+                            if ev not in kinds:
+                                hit("registered_for_unsupported_declared_kind")
                         lk = it["langs"]["kind"]
                         if any(h_ == it["h"] for h_, _ in model[ev][:-1]):
                             hit("same_handler_twice")
@@ -515,6 +550,16 @@ def execute(trace):
         if regs and not exp_seq:
             hit("no_handler_matched")
         obs_seq = [(h, d) for h, d in invoked]
+        if op["event"] in name_of and not violation:
+            # two declared kinds are two events: a handler registered under ANOTHER name never runs for this one
+            hit("raised_by_declared_name")
+            mine = set(name_model.get(name_of[op["event"]], []))
+            foreign = sorted({h for h, _ in obs_seq} - mine)
+            if foreign and not any(o_.get("event", "").startswith(("E", "U")) for o_ in ops if o_["op"] != "register_list"):
+                violation = {"step": step, "cls": "handler_of_other_kind_ran",
+                             "detail": {"op": {"op": "notify", "event": op["event"]}, "raised": name_of[op["event"]], "handlers_run": foreign,
+                                        "registered_under": sorted(n_ for n_, hs in name_model.items() if set(hs) & set(foreign))}}
+                break
         cls = f"{len(regs)}|{''.join(cls_vec)}"
         states.add(h64(cls))
         trans.add(h64(f"{cls}|{res}"))
@@ -555,6 +600,8 @@ def execute(trace):
             hit("registered_during_dispatch")
             lr = reent["late_reg"]
             model.setdefault(lr["_ev"], []).append((lr["new_h"], _model_langs(lr["langs"])))
+            if lr["event"] in name_of:
+                name_model.setdefault(name_of[lr["event"]], []).append(lr["new_h"])
     return {"violation": violation, "probes": probes, "states": states, "trans": trans,
             "steps": len(ops), "log": digest_hex([log, violation])}
 
